@@ -1839,6 +1839,31 @@ def additive_leaves(e):
     return [e]
 
 
+def eval_expr(e, leaf):
+    """value of a small integer / boolean expression tree; `leaf(x)` gives the value of anything that is not a constant or
+    an operator (return None for unknown).  No h2 code runs: the tree is the MIR expression of a local."""
+    x = strip(e)
+    if x[0] == 'const':
+        return x[1] if isinstance(x[1], (int, bool)) else leaf(x)
+    if x[0] == 'cast':
+        return eval_expr(x[2] if len(x) > 2 and isinstance(x[2], tuple) else x[1], leaf)
+    if x[0] == 'un' and x[1] == 'Not':
+        v = eval_expr(x[2], leaf)
+        return None if v is None else (not v)
+    if x[0] == 'bin':
+        a, b = eval_expr(x[2], leaf), eval_expr(x[3], leaf)
+        if a is None or b is None:
+            return None
+        op = x[1]
+        try:
+            return {'BitAnd': lambda: a & b, 'BitOr': lambda: a | b, 'BitXor': lambda: a ^ b, 'Eq': lambda: a == b, 'Ne': lambda: a != b,
+                    'Lt': lambda: a < b, 'Le': lambda: a <= b, 'Gt': lambda: a > b, 'Ge': lambda: a >= b,
+                    'Add': lambda: a + b, 'Sub': lambda: a - b, 'Shr': lambda: a >> b, 'Shl': lambda: a << b}[op]()
+        except Exception:
+            return None
+    return leaf(x)
+
+
 def signed_leaves(e, sign=1):
     """[(sign, leaf)] of a tree of (checked) additions and subtractions; None when another operator is involved.
     With it `cap - len >= min`, `cap >= min + len` and `let free = cap - len; free >= min` are the same sum."""
